@@ -36,12 +36,15 @@ def gen_calendar(tape):
     cstep = {"months": tape.choice([1, 1, 2, 3]), "days": tape.choice([0, 0, 0, 1, 15])}
     pstep = tape.choice([{"td_hours": 24}, {"td_hours": 12}, {"rd_days": 1}, {"td_hours": 6}, {"rd_days": 1, "rd_hours": 0}])
     lead = tape.choice([0, 0, 1, 3])            # producer starts this many days before the consumer
-    link = tape.weighted([("direct", 4), ("scale", 2), ("delay", 3)])
+    # "delay_months": a calendar delay (relativedelta of whole months); "trigger": through a real TimeTrigger that steps with
+    # the consumer's calendar step from the same start day
+    link = tape.weighted([("direct", 4), ("scale", 2), ("delay", 3), ("delay_months", 2), ("trigger", 2)])
     sc = {"engine": "K", "start": [year, month, day], "cstep": cstep, "pstep": pstep, "lead": lead, "link": link,
           "delay_days": tape.choice([1, 2, 31]) if link == "delay" else 0,
+          "delay_months": tape.choice([1, 1, 2]) if link == "delay_months" else 0,
           "n_steps": tape.rng_int(3, 8), "initial_pull": not tape.chance(1, 4),
           "second": tape.chance(1, 3), "second_step": {"months": tape.choice([1, 2]), "days": 0},
-          "listing": tape.shuffle([0, 1, 2])}
+          "listing": tape.shuffle([0, 1, 2, 3])}
     return sc
 
 
@@ -86,7 +89,13 @@ def run_calendar(sc):
                                callback=mk_cb("c2"), start=start, step=s2)
         c2.with_name("c2")
         comps.append(c2)
-    updates = {"c1": [], "c2": []}
+    trig = None
+    if sc["link"] == "trigger":
+        from finam.components import TimeTrigger
+        trig = TimeTrigger(in_info=fm.Info(time=None, grid=fm.NoGrid(), units=""), start=start, step=cstep)
+        trig.with_name("trig")
+        comps.append(trig)
+    updates = {"c1": [], "c2": [], "trig": []}
     for comp in comps[1:]:
         def wrap(comp=comp):
             orig = comp.update
@@ -97,12 +106,17 @@ def run_calendar(sc):
                 updates[comp.name].append((before, ann, comp.time))
             comp.update = upd
         wrap()
-    order = [i for i in sc["listing"] if i < len(comps)]
+    order = [i for i in sc["listing"] if i < len(comps)] + [i for i in range(len(comps)) if i not in sc["listing"]]
     composition = fm.Composition([comps[i] for i in order], print_log=False, log_level=50)
     if sc["link"] == "scale":
         prod.outputs["o"] >> fm.adapters.Scale(1.0) >> c1.inputs["i"]
     elif sc["link"] == "delay":
         prod.outputs["o"] >> fm.adapters.DelayFixed(delay=timedelta(days=sc["delay_days"])) >> c1.inputs["i"]
+    elif sc["link"] == "delay_months":
+        prod.outputs["o"] >> fm.adapters.DelayFixed(delay=relativedelta(months=sc["delay_months"])) >> c1.inputs["i"]
+    elif sc["link"] == "trigger":
+        prod.outputs["o"] >> trig.inputs["In"]
+        trig.outputs["Out"] >> c1.inputs["i"]
     else:
         prod.outputs["o"] >> c1.inputs["i"]
     if c2 is not None:
@@ -143,6 +157,8 @@ def run_calendar(sc):
             v("cal-announced-vs-actual", "callback-time", f"c1: announced {ann}, model evaluated for {t_cb}; scenario {sc}")
             break
         want_t = max(ann - d, pstart) if sc["link"] == "delay" else ann
+        if sc["link"] == "delay_months":
+            want_t = max(ann - relativedelta(months=sc["delay_months"]), pstart)
         if val is not None and abs(val - hours(want_t)) > 1e-6:
             v("cal-value", "value", f"c1 update to {ann}: received the publication for hour {val}, requested time "
               f"{want_t} is hour {hours(want_t)}; scenario {sc}")
